@@ -8,9 +8,10 @@ CONSTANTS
   MaxSend = 4
   MaxAdv = 9
   CacheMax = 16
+  Extras = {}
   Asks = {FALSE, TRUE}
   Fam = "race"
-  Depth = 0
+  Depth = 1
   DepthAtomic = 0
   MaxSteps = 8
 CHECK_DEADLOCK FALSE
